@@ -19,6 +19,20 @@ impl GetSigningKeyResponse {
 //@ spec
     ensures r.k() == self.s_key()
 //@ end
+//@ fn signing_key.rs impl GetSigningKeyResponse :: principal
+//@ params
+//@ props C08 C15
+//@ ret r
+//@ spec
+    ensures *r == self.s_principal() //# C15 name=provider_principal_accessor
+//@ end
+//@ fn signing_key.rs impl GetSigningKeyResponse :: session_data
+//@ params
+//@ props C08 C15
+//@ ret r
+//@ spec
+    ensures *r == self.s_session_data() //# C15 name=provider_session_data_accessor
+//@ end
 }
 pub struct GetSigningKeyRequestBuilder {
     pub access_key: Option<String>, pub session_token: Option<Option<String>>, pub request_date: Option<NaiveDate>,
